@@ -143,7 +143,7 @@ func c16Mutations(p *PExpr) []string {
 func init() {
 	Register(Meta{
 		ID: "C16", Level: "exploration",
-		Rule: "(a) every path AST with <=L leaves over {ex.p, ex.q, ex.p^, @type} (+ ex.p_1, ex.a\\/b as single leaves) rendered in every layout of a menu (blank, none, two blanks, tab, newline around operators and inside parentheses and before ^; 0-2 redundant outer parentheses; left-only/right-only blanks); (b) every single-edit mutation (delete, duplicate, replace by or insert each of 14 tokens at every token boundary) of every canonical sentence. Each distinct string is classified by a literal PEG interpreter of the documented grammar with end-of-input; accept <=> CompileProfile of a one-constraint profile succeeds; for accepted strings the implementation's AST is compared with the reference AST, and the denotation is observed on a collision graph for a subset. Non-trivial = string that is not a sentence but has a sentence as a proper prefix, or a sentence with non-canonical layout; distinct by string.",
+		Rule:        "(a) every path AST with <=L leaves over {ex.p, ex.q, ex.p^, @type} (+ ex.p_1, ex.a\\/b as single leaves) rendered in every layout of a menu (blank, none, two blanks, tab, newline around operators and inside parentheses and before ^; 0-2 redundant outer parentheses; left-only/right-only blanks); (b) every single-edit mutation (delete, duplicate, replace by or insert each of 14 tokens at every token boundary) of every canonical sentence. Each distinct string is classified by a literal PEG interpreter of the documented grammar with end-of-input; accept <=> CompileProfile of a one-constraint profile succeeds; for accepted strings the implementation's AST is compared with the reference AST, and the denotation is observed on a collision graph for a subset. Non-trivial = string that is not a sentence but has a sentence as a proper prefix, or a sentence with non-canonical layout; distinct by string.",
 		Assumptions: []string{"the transitive modifier '*' is undocumented and outside the reference language"},
 	}, c16Gen, c16Run)
 }
